@@ -14,6 +14,7 @@ settings into an empty directory.
 import concurrent.futures
 import hashlib
 import os
+import random
 import re
 import shutil
 import subprocess
@@ -130,8 +131,8 @@ def hx(s):
     return s.encode().hex()
 
 
-def harness_line(mode, c, ypath, yout, lpath, lout):
-    kv = ["mode=%s" % mode, "y=%s" % hx(ypath), "yout=%s" % hx(yout), "l=%s" % hx(lpath), "lout=%s" % hx(lout)]
+def harness_line(mode, c, ypath, yout, lpath, lout, api="build"):
+    kv = ["mode=%s" % mode, "api=%s" % ("pf" if (api == "process_file" and mode == "P") else "build"), "y=%s" % hx(ypath), "yout=%s" % hx(yout), "l=%s" % hx(lpath), "lout=%s" % hx(lout)]
     for name, key, vals in OPTS:
         if mode == "P" and name in LEXER_ONLY:
             continue
@@ -249,6 +250,52 @@ def targeted_histories():
     return hs
 
 
+def process_file_histories():
+    """histories replayed through BOTH entry points of the parser builder (mode P): build() and the deprecated but
+    public process_file(&mut self, in, out), which copies the builder field by field and is expected to behave exactly
+    like build() (the mirror does not distinguish them).  Returns (api, mode, g0, l0, ops, times)."""
+    B = ("B",)
+    shapes = [
+        (0, [B, ("Y", 32), B, ("Y", 0), B]),                         # good build -> undefined rule -> build -> repaired
+        (0, [B, ("Y", 30), B, B, ("Y", 1), B]),                      # good build -> syntax error
+        (0, [B, ("Y", 31), B, ("Y", 31), B]),
+        (0, [B, ("Y", 20), B, ("Y", 0), B]),                         # good build -> warning with warnings_are_errors
+        (0, [B, ("S", "wae", 0), ("Y", 20), B, ("S", "wae", 1), B, ("S", "wae", 0), B]),
+        (20, [B, ("S", "wae", 0), B, ("Y", 21), B, ("S", "eoc", 0), B, ("S", "wae", 1), B]),
+        (0, [B, ("Y", 10), B, ("Y", 0), B]),                         # good build -> unexpected conflicts
+        (0, [B, ("S", "eoc", 0), ("Y", 10), B, ("S", "eoc", 1), B, B]),
+        (3, [B, ("Y", 11), B, ("Y", 3), B, B]),                      # %expect right -> wrong -> right
+        (30, [B, ("Y", 0), B, ("Y", 30), B, ("Y", 32), B]),          # starts broken
+        (4, [B, ("S", "mod", 1), ("Y", 32), B, ("S", "mod", 0), B]), # option change together with a broken grammar
+        (0, [B, ("S", "st", 0), B, ("Y", 30), B, ("S", "st", 2), B]),
+        (5, [B, ("Y", 32), B, ("Y", 6), B, B]),
+    ]
+    hs = []
+    for api in ("process_file", "build"):
+        for g0, ops in shapes:
+            hs.append((api, "P", g0, 0, ops, default_times(ops)))
+    # same tick: the broken edit carries the time stamp of the output the good build wrote / the build happens in
+    # the tick of the edit
+    for api in ("process_file", "build"):
+        hs.append((api, "P", 0, 0, [B, ("Y", 32), B, ("Y", 0), B], [1, 1, 1, 2, 2]))
+        hs.append((api, "P", 0, 0, [B, ("Y", 20), B, B], [1, 1, 2, 3]))
+    # the targeted mode-P histories of the build() entry point, again through process_file
+    k = 0
+    for (mode, g0, l0, ops) in targeted_histories():
+        if mode != "P":
+            continue
+        pair_family = len(ops) == 5 and ops[0][0] == "S"
+        if pair_family:
+            k += 1
+            if k % 3:
+                continue
+        hs.append(("process_file", mode, g0, l0, ops, default_times(ops)))
+    for (mode, g0, l0, ops, ts) in same_tick_histories():
+        if mode == "P":
+            hs.append(("process_file", mode, g0, l0, ops, ts))
+    return hs
+
+
 def model_line(mode, g0, l0, ops, times):
     def ysrc(g):
         _, syn, warn, conf, toks = _G[g]
@@ -344,7 +391,7 @@ def set_mtime(path, t):
     os.utime(path, (BASE_T + 100 * t, BASE_T + 100 * t))
 
 
-def run_history(exe, idx, mode, g0, l0, ops, times, symlink=False):
+def run_history(exe, idx, mode, g0, l0, ops, times, symlink=False, api="build"):
     """replays one history; returns per-op observations.  With symlink=True the grammar and lexer paths handed to the
     builders are symbolic links (whose own timestamps never change) to the files that are edited."""
     casedir = os.path.join(WORKROOT, "h%05d" % idx)
@@ -386,7 +433,7 @@ def run_history(exe, idx, mode, g0, l0, ops, times, symlink=False):
             before = {}
             for k, pth in (("y", yout), ("l", lout)):
                 before[k] = os.stat(pth).st_mtime_ns if os.path.exists(pth) else None
-            res = spawn(exe, harness_line(mode, c, ypath, yout, lpath, lout))
+            res = spawn(exe, harness_line(mode, c, ypath, yout, lpath, lout, api))
             written = {}
             for k, pth in (("y", yout), ("l", lout)):
                 if os.path.exists(pth):
@@ -400,7 +447,7 @@ def run_history(exe, idx, mode, g0, l0, ops, times, symlink=False):
             cdir = os.path.join(casedir, "clean%d" % nclean)
             os.makedirs(cdir)
             cy, cl = os.path.join(cdir, "g.y.rs"), os.path.join(cdir, "l.l.rs")
-            cres = spawn(exe, harness_line(mode, c, ypath, cy, lpath, cl))
+            cres = spawn(exe, harness_line(mode, c, ypath, cy, lpath, cl, api))
             obs.append({
                 "res": classify(res, ypath, lpath), "raw": res,
                 "y": read_norm(yout, casedir), "l": read_norm(lout, casedir),
@@ -480,10 +527,22 @@ def _run(ctx, exe, mexe, rng):
     symlinked.add(len(hs))
     hs.append(("C", 0, 0, [("B",), ("L", 1), ("B",), ("L", 2), ("Y", 1), ("B",), ("B",)], default_times([0] * 7)))
     ctx.count("histories_through_symlinks", len(symlinked))
+    # ---- the entry point of the parser builder is an input too (mode P; in mode C the lexer builder drives it) ----
+    apis = {}
+    for (api, mode, g0, l0, ops, ts) in process_file_histories():
+        apis[len(hs)] = api
+        hs.append((mode, g0, l0, ops, ts))
+    arng = random.Random(len(hs))
+    for _ in range(ctx.n(50, 800)):
+        g0 = arng.choice(VALID_G + VALID_G + CONF_G + WARN_G)
+        ops = gen_history(arng, "P", 12)
+        apis[len(hs)] = "process_file"
+        hs.append(("P", g0, 0, ops, random_times(arng, ops) if arng.random() < 0.6 else default_times(ops)))
     mlines = [model_line(m, g0, l0, ops, ts) for (m, g0, l0, ops, ts) in hs]
     model = core.run_lines([mexe], mlines)
     with concurrent.futures.ThreadPoolExecutor(max_workers=max(2, core.NPROC)) as ex:
-        futs = [ex.submit(run_history, exe, i, m, g0, l0, ops, ts, i in symlinked) for i, (m, g0, l0, ops, ts) in enumerate(hs)]
+        futs = [ex.submit(run_history, exe, i, m, g0, l0, ops, ts, i in symlinked, apis.get(i, "build"))
+                for i, (m, g0, l0, ops, ts) in enumerate(hs)]
         impl = [f.result() for f in futs]
 
     # descriptor <-> bytes must be a bijection over the whole run (both directions:
@@ -492,6 +551,7 @@ def _run(ctx, exe, mexe, rng):
     ncorr_bad = 0
     nprop = {"stale": 0, "lexout": 0, "st": 0, "other": 0}
     nbuilds = 0
+    nbuilds_pf = [0]
 
     def bij(d, content):
         if d is None or content is None:
@@ -505,13 +565,17 @@ def _run(ctx, exe, mexe, rng):
         builds = [k for k, o in enumerate(ops) if o[0] == "B"]
         changes_between = any(ops[k][0] != "B" for k in range(builds[0], builds[-1])) if len(builds) >= 2 else False
         nontriv = len(builds) >= 2 and changes_between
-        canon = "%s %d %d %s %s" % (mode, g0, l0, ops, times)
+        api = apis.get(i, "build")
+        canon = "%s %d %d %s %s" % (mode, g0, l0, ops, times) + (" api=process_file" if api == "process_file" else "")
         same_tick = any(times[k] == times[k - 1] for k in range(1, len(times)))
-        hist_json = {"mode": mode, "g0": g0, "l0": l0, "ops": [list(o) for o in ops], "times": times, "model_line": ml}
+        hist_json = {"mode": mode, "entry_point": ("CTParserBuilder::%s" % api) if mode == "P" else "CTLexerBuilder::build + lrpar_config",
+                     "g0": g0, "l0": l0, "ops": [list(o) for o in ops], "times": times, "model_line": ml}
         if same_tick:
             ctx.count("histories_with_equal_ticks")
         ctx.case(canon, nontriv, {"history": hist_json, "model": model[i][:400]})
         ctx.count("mode_" + mode)
+        if mode == "P":
+            ctx.count("mode_P_entry_" + api)
         ctx.count("len_%d" % len(ops))
         ctx.count("builds_%d" % min(len(builds), 6))
         if len(ms) != len(ops):
@@ -528,8 +592,12 @@ def _run(ctx, exe, mexe, rng):
                 ctx.count("op_" + o[0] + ("_" + o[1] if o[0] == "S" else ""))
                 continue
             nbuilds += 1
+            if api == "process_file":
+                nbuilds_pf[0] += 1
             a, m = ob[k], ms[k]
             ctx.count("result_" + a["res"][0].split(":")[0])
+            if api == "process_file":
+                ctx.count("process_file_result_" + a["res"][0].split(":")[0])
             (my, myt), (mlc, mlt) = desc(m["y"]), desc(m["l"])
             mcy = None if m["cy"] == "-" else m["cy"]
             mcl = None if m["cl"] == "-" else m["cl"]
@@ -621,9 +689,14 @@ def _run(ctx, exe, mexe, rng):
         "an operation happen in the tick of the previous one: an edit stamped exactly like the last written output, a "
         "build in the tick of the edit before it); after every build: result class, regenerated(), "
         "written files, existence + content class (descriptor<->bytes bijection over the run) vs the mirror and bytes vs "
-        "a build into an empty directory; non-trivial = at least 2 builds with a change between them; distinct by history")
+        "a build into an empty directory; the parser builder's entry point is an input (mode P): the good-build -> broken grammar "
+        "(syntax error / undefined rule / warning with warnings_are_errors / conflicts) -> build shapes run through build() "
+        "and through the deprecated process_file(), the targeted one-option and same-tick mode-P histories and extra random "
+        "mode-P histories run through process_file() as well, against the same mirror (regenerated() is not observable "
+        "there); non-trivial = at least 2 builds with a change between them; distinct by history")
     ctx.coverage["exhaustive"] = False
     ctx.coverage["builds_replayed"] = nbuilds
+    ctx.coverage["builds_replayed_through_process_file"] = nbuilds_pf[0]
     ctx.coverage["content_classes"] = len(d2h)
     ctx.coverage["property_findings"] = nprop
     ctx.coverage["variant"] = {"STALE_FIXED": STALE_FIXED, "ST_IN_CACHE": ST_IN_CACHE}
